@@ -144,7 +144,7 @@ Section SemProofs.
     split; [exact E|]. rewrite E. unfold st1.
     assert (L : alookup x (sm_cv (sem_step st ob)) =
                 match alookup x (sm_cv st) with
-                | Some c => Some (mk_cvsem (Some d) (cs_collect c) (cs_collect c && (cs_valid c || cd_active d)))
+                | Some c => Some (mk_cvsem (Some d) (cs_collect c) (step_valid (ob_ok ob) c (Some d)))
                 | None => None end).
     { unfold sem_step. cbn [sm_cv]. rewrite alookup_map_fst. cbn [fst snd]. rewrite Hd. reflexivity. }
     destruct (alookup x (sm_cv st)) as [c|] eqn:Ec; [|contradiction].
@@ -159,22 +159,36 @@ Section SemProofs.
     destruct (alookup b (sm_bias st)); [|contradiction]. rewrite He. reflexivity.
   Qed.
 
-  (* gradients: an answer other than an error needs the feature AND a step after it was enabled *)
+  (* gradients: without the feature, or before a step has followed its activation, the answer is an error; afterwards the feature
+     is on and the gradients are still unavailable *)
   Lemma getgradients_needs_a_step (st : sem) e words x c :
     e_name e = "colvar_getgradients" -> nth 2 words "" = x -> alookup x (sm_cv st) = Some c ->
-    (cs_collect c = false \/ cs_valid c = false) ->
+    (cs_collect c = false \/ cs_valid c = Some false) ->
     snd (body_sem st e words) = QErr /\
-    forall c', alookup x (sm_cv (fst (body_sem st e words))) = Some c' -> cs_collect c' = true /\ cs_valid c' = cs_collect c && cs_valid c.
+    forall c', alookup x (sm_cv (fst (body_sem st e words))) = Some c' -> cs_collect c' = true /\ cs_valid c' = Some false.
   Proof.
     intros Hn Hx Hc Hf. unfold body_sem. rewrite Hn. cbn -[alookup set_flags]. rewrite Hx, Hc.
     destruct (cs_collect c) eqn:E1; cbn [negb].
-    - destruct Hf as [Hf|Hf]; [discriminate|]. rewrite Hf. cbn [negb snd fst]. split; [reflexivity|].
+    - destruct Hf as [Hf|Hf]; [discriminate|]. rewrite Hf. cbn [snd fst]. split; [reflexivity|].
       intros c' Hc'. rewrite Hc in Hc'. injection Hc' as <-. rewrite E1, Hf. split; reflexivity.
     - cbn [snd fst]. split; [reflexivity|]. intros c' Hc'. unfold set_flags in Hc'. rewrite Hc in Hc'. cbn [sm_cv] in Hc'.
-      assert (A : forall l, alookup x l = Some c -> alookup x (aset x (mk_cvsem (cs_data c) true false) l) = Some (mk_cvsem (cs_data c) true false)).
+      assert (A : forall l, alookup x l = Some c -> alookup x (aset x (mk_cvsem (cs_data c) true (Some false)) l) = Some (mk_cvsem (cs_data c) true (Some false))).
       { induction l as [|[m b] r IH]; cbn [alookup aset]; [discriminate|].
         destruct (String.eqb m x) eqn:Em; cbn [alookup]; rewrite Em; [reflexivity | exact IH]. }
       rewrite (A _ Hc) in Hc'. injection Hc' as <-. cbn [cs_collect cs_valid]. split; reflexivity.
+  Qed.
+
+  (* and after a step that ran through, with the feature on and the variable active, they are the gradients observed *)
+  Lemma getgradients_after_step (st : sem) ob e words x c d :
+    e_name e = "colvar_getgradients" -> nth 2 words "" = x -> alookup x (sm_cv st) = Some c -> alookup x (ob_cv ob) = Some d ->
+    cs_collect c = true -> ob_ok ob = true -> cd_active d = true ->
+    body_sem (sem_step st ob) e words = (sem_step st ob, QVecs (cd_grads d)).
+  Proof.
+    intros Hn Hx Hc Hd Hcol Hok Hact. unfold body_sem. rewrite Hn. cbn -[alookup sem_step]. rewrite Hx.
+    assert (L : alookup x (sm_cv (sem_step st ob)) = Some (mk_cvsem (Some d) (cs_collect c) (step_valid (ob_ok ob) c (Some d)))).
+    { unfold sem_step. cbn [sm_cv]. rewrite alookup_map_fst. cbn [fst snd]. rewrite Hc, Hd. reflexivity. }
+    rewrite L. cbn [cs_collect cs_valid cs_data]. rewrite Hcol. cbn [negb]. unfold step_valid. rewrite Hcol, Hok, Hact.
+    destruct (cs_valid c) as [[|]|]; reflexivity.
   Qed.
 
   (* the data stay attached to the objects that exist, over every history *)
@@ -196,13 +210,21 @@ Section SemProofs.
     destruct (inert (e_name e)); [split; [split; assumption | reflexivity]|].
     destruct (String.eqb (e_name e) "colvar_getgradients").
     { destruct (alookup (nth 2 words "") (sm_cv st)) as [cs|]; [|split; [split; assumption | reflexivity]].
-      destruct (negb (cs_collect cs)); [apply F|]. destruct (negb (cs_valid cs)); split; try split; try assumption; reflexivity. }
-    destruct (String.eqb (e_name e) "colvar_set" && String.eqb (nth 4 words "") "collect_gradient"); [|exact I].
-    destruct (alookup (nth 2 words "") (sm_cv st)) as [cs|]; [|split; [split; assumption | reflexivity]].
-    destruct (truthy (nth 5 words "")) as [[|]|]; cbn [fst].
-    - destruct (cs_collect cs); [split; [split; assumption | reflexivity] | apply F].
-    - apply F.
-    - split; [split; assumption | reflexivity].
+      destruct (negb (cs_collect cs)); [apply F|]. destruct (cs_valid cs) as [[|]|]; split; try split; try assumption; reflexivity. }
+    destruct (String.eqb (e_name e) "colvar_set" && String.eqb (nth 4 words "") "collect_gradient").
+    { destruct (alookup (nth 2 words "") (sm_cv st)) as [cs|]; [|split; [split; assumption | reflexivity]].
+      destruct (truthy (nth 5 words "")) as [[|]|]; cbn [fst].
+      - destruct (cs_collect cs); [split; [split; assumption | reflexivity] | apply F].
+      - apply F.
+      - split; [split; assumption | reflexivity]. }
+    assert (FI : forall n c v, sem_wf (set_flags (invalidate st) n c v) /\ sm_objs (set_flags (invalidate st) n c v) = sm_objs st).
+    { intros n c v. destruct I as [[I1 I2] I3]. unfold set_flags. destruct (alookup n (sm_cv (invalidate st))); [|split; [split; assumption | exact I3]].
+      unfold sem_wf. cbn [sm_cv sm_bias sm_objs]. rewrite map_fst_aset. repeat split; assumption. }
+    destruct (String.eqb (e_name e) "colvar_update").
+    { cbn [fst]. destruct (alookup (nth 2 words "") (sm_cv st)) as [cs|]; [apply FI | exact I]. }
+    destruct (String.eqb (e_name e) "cv_update"); [|exact I].
+    cbn [fst]. destruct I as [[I1 I2] I3]. unfold sem_wf. cbn [sm_cv sm_bias sm_objs]. rewrite map_map. cbn [fst].
+    repeat split; assumption.
   Qed.
 
   Lemma exec_sem_wf (st : sem) words : sem_wf st -> sem_wf (fst (fst (exec_sem tbl parse_conf read_file st words))).
